@@ -94,6 +94,11 @@ func (d *D) Base(idx int, ctx *core.Ctx) *core.Scenario {
 		sc.Kind = "l1:anywrap"
 		sc.Inputs, sc.Events = nil, nil
 	}
+	if idx%17 == 9 {
+		sc.Program, sc.Events = work.MapLife(r)
+		sc.Kind = "l1:maplife"
+		sc.Inputs = nil
+	}
 	if r.Chance(0.5) {
 		sc.Faults = []core.Fault{{Kind: "stop", At: 1 + r.Intn(400)}}
 	}
